@@ -16,6 +16,12 @@ class Keys:
     def __init__(self, ctx, config, nk, rng, small=False):
         self.on_sk = [rng.randrange(1, n) for _ in range(nk)]; self.off_sk = [rng.randrange(1, n) for _ in range(nk)]
         self.w = rng.randrange(1, n)
+        if nk >= 2 and rng.random() < 0.3:
+            # duplicates and negation twins (same x, other y) inside and across the two lists
+            for _ in range(rng.randrange(1, 4)):
+                i, j = rng.sample(range(nk), 2); lst, src = rng.choice(((self.on_sk, self.on_sk), (self.off_sk, self.off_sk), (self.on_sk, self.off_sk), (self.off_sk, self.on_sk)))
+                lst[j] = src[i] if rng.random() < 0.4 else n - src[i]
+            self.off_sk = [x if (x + self.w) % n else rng.randrange(1, n) for x in self.off_sk]
         self.on = [mulG(x) for x in self.on_sk]; self.off = [mulG(x) for x in self.off_sk]; self.W = mulG(self.w)
         self.nk = nk; self.ctx = ctx; self.config = config
         self.on_obj = [self.obj(P) for P in self.on]; self.off_obj = [self.obj(P) for P in self.off]; self.W_obj = self.obj(self.W)
@@ -98,10 +104,12 @@ def wl_honest(ctx, config):
                 i, j = rng.sample(range(nk), 2); on = list(K.on); oo = list(K.on_obj); on[i], on[j] = on[j], on[i]; oo[i], oo[j] = oo[j], oo[i]
                 vcase(ctx, config, K, sb, "mut:online_swapped", on=on, on_obj=oo)
             elif kind == 5:
-                j = rng.randrange(nk); P = mulG(rng.randrange(1, n)); off = list(K.off); fo = list(K.off_obj); off[j] = P; fo[j] = K.obj(P)
+                j = rng.randrange(nk); P = mulG(rng.randrange(1, n)) if rng.random() < 0.5 else neg(K.off[j]); off = list(K.off); fo = list(K.off_obj); off[j] = P; fo[j] = K.obj(P)
                 vcase(ctx, config, K, sb, "mut:offline_replaced", off=off, off_obj=fo)
+                j = rng.randrange(nk); on = list(K.on); oo = list(K.on_obj); on[j] = neg(on[j]); oo[j] = K.obj(on[j])
+                vcase(ctx, config, K, sb, "mut:online_negated", on=on, on_obj=oo)
             elif kind == 6:
-                P = mulG(rng.randrange(1, n)); vcase(ctx, config, K, sb, "mut:other_sub_key", W=P, W_obj=K.obj(P))
+                P = mulG(rng.randrange(1, n)) if rng.random() < 0.5 else neg(K.W); vcase(ctx, config, K, sb, "mut:other_sub_key", W=P, W_obj=K.obj(P))
             elif kind == 7:
                 # key count mismatch: one key fewer / one more than the signature says
                 vcase(ctx, config, K, sb, "mut:list_shorter", on=K.on[:-1], off=K.off[:-1], on_obj=K.on_obj[:-1], off_obj=K.off_obj[:-1])
